@@ -251,6 +251,34 @@ pub fn run_world_check(c: WorldCheck, tier: Tier, seed: u64) -> i32 {
     let prof = c.profile.clone();
     s.search("world", "world", tier.pick(c.cases_quick, c.cases_thorough), move || scenario_strategy(prof.clone()), &case);
     if c.prop == "C11" {
+        // a crash at every point of histories "attempt fails, then a partial set arrives", in every crash flavour incl.
+        // "the wall clock was stepped back while down" (254) and a very long outage (255): the time a restart grants
+        {
+            use proptest::strategy::{Strategy, ValueTree};
+            use proptest::test_runner::{Config, RngAlgorithm, TestRng, TestRunner};
+            let mut bytes = [11u8; 32];
+            bytes[..8].copy_from_slice(&seed.to_le_bytes());
+            let mut runner = TestRunner::new_with_rng(Config::default(), TestRng::from_seed(RngAlgorithm::ChaCha, &bytes));
+            let strat = after_failed_attempts_strategy();
+            let mut all = vec![];
+            for _ in 0..tier.pick(4, 60) {
+                let b = strat.new_tree(&mut runner).unwrap().current();
+                if b.cfg.mpp_timeout_s == 0 {
+                    continue;
+                }
+                for v in family(&b) {
+                    if let Some((k, 0, false)) = v.crash_at.first().cloned() {
+                        let mut back = v.clone();
+                        back.crash_at = vec![(k, 254, false)];
+                        all.push(back);
+                    }
+                    if !v.crash_at.is_empty() {
+                        all.push(v);
+                    }
+                }
+            }
+            s.enumerate("enumerate-crash-points-after-failed-attempts", "world", all, &case);
+        }
         use proptest::strategy::Strategy;
         // in half of the histories the failure-notification service (e-mail) never returns
         s.search("world-after-failed-attempts", "world", tier.pick(150, 3000), || (after_failed_attempts_strategy(), proptest::bool::ANY).prop_map(|(mut x, st)| { x.notif_stall = st; x }), &case);
